@@ -31,6 +31,7 @@ Rewrites (each one preserves behaviour, evaluation order of effects included):
 """
 import ast
 import copy
+from fractions import Fraction
 
 from .core import FuncTypes, docstring_free
 from .ratfun import Evaluator, Inconclusive, RF
@@ -300,6 +301,10 @@ def _is_boolish(e):
         or (isinstance(e, ast.Call) and isinstance(e.func, ast.Name) and e.func.id in ("isinstance", "callable", "hasattr", "any", "all"))
 
 
+_RF_CACHE = {}
+_HOIST = [0]
+
+
 class _Expr(ast.NodeTransformer):
     def __init__(self, tuples=(), root=None):
         self.tuples = set(tuples)       # names known to be tuples (the *args parameter)
@@ -353,6 +358,56 @@ class _Expr(ast.NodeTransformer):
         return self._arith(node)
 
     def visit_Compare(self, node):
+        return self._int_cmp(self._visit_Compare0(node))
+
+    def _int_cmp(self, node):
+        """comparison of two int-valued expressions: constant on one side, the rest (no constant term, leading coefficient
+        positive) on the other - ``v < n`` and ``0 < n - v`` and ``1 <= n - v`` are not merged across operators, but
+        ``1 < la`` and ``0 < la - 1`` are one test"""
+        if not (isinstance(node, ast.Compare) and len(node.ops) == 1 and isinstance(node.ops[0], (ast.Lt, ast.LtE, ast.Eq, ast.NotEq))):
+            return node
+
+        def as_rf(e):
+            if isinstance(e, ast.Constant) and type(e.value) is int:
+                return RF.const(e.value)
+            if isinstance(e, ast.Constant) and isinstance(e.value, str) and e.value in _RF_CACHE:
+                return _RF_CACHE[e.value]
+            if isinstance(e, ast.Name) and _int_typed(e, self.root):
+                return RF.sym(e.id)
+            return None
+        l, r = as_rf(node.left), as_rf(node.comparators[0])
+        if l is None or r is None:
+            return node
+        d = (r - l).simplified() if hasattr(r - l, "simplified") else r - l
+        d = r - l
+        if d.d != {(): Fraction(1)}:
+            return node
+        k = d.n.get((), Fraction(0))
+        P = {m: c for m, c in d.n.items() if m != ()}
+        if not P or k.denominator != 1 or any(c.denominator != 1 for c in P.values()):
+            return node
+        first = sorted(P)[0]
+        op = node.ops[0]
+
+        def emit(poly):
+            if len(poly) == 1:
+                (m, c), = poly.items()
+                if c == 1 and len(m) == 1 and m[0][1] == 1:
+                    return ast.Name(id=m[0][0], ctx=ast.Load())
+            rf = RF(dict(poly))
+            key = "<RF %s>" % rf.key()
+            _RF_CACHE[key] = rf
+            return ast.Constant(value=key)
+        if P[first] > 0:
+            # -k <op> P
+            return ast.Compare(left=ast.Constant(value=int(-k)), ops=[op], comparators=[emit(P)])
+        negP = {m: -c for m, c in P.items()}
+        if isinstance(op, (ast.Eq, ast.NotEq)):
+            return ast.Compare(left=ast.Constant(value=int(k)), ops=[op], comparators=[emit(negP)])
+        # -k < P   <=>   -P < k
+        return ast.Compare(left=emit(negP), ops=[op], comparators=[ast.Constant(value=int(k))])
+
+    def _visit_Compare0(self, node):
         self.generic_visit(node)
         if len(node.ops) == 1:
             l, r, op = node.left, node.comparators[0], node.ops[0]
@@ -411,22 +466,36 @@ class _Expr(ast.NodeTransformer):
         if not isinstance(node, ast.BinOp):
             return node
         num = lambda e: isinstance(e, ast.Constant) and type(e.value) in (int, float) 
-        names = [n for n in ast.walk(node) if isinstance(n, ast.Name)]
+        # sub-expressions already in normal form take part through their value
+        rf_env = {}
+        if any(isinstance(n, ast.Constant) and isinstance(n.value, str) and n.value in _RF_CACHE for n in ast.walk(node)):
+            class _R(ast.NodeTransformer):
+                def visit_Constant(self_, n):
+                    if isinstance(n.value, str) and n.value in _RF_CACHE:
+                        nm = "rf__%d" % len(rf_env)
+                        rf_env[nm] = _RF_CACHE[n.value]
+                        return ast.Name(id=nm, ctx=ast.Load())
+                    return n
+            node_eval = _R().visit(copy.deepcopy(node))
+        else:
+            node_eval = node
+        names = [n for n in ast.walk(node_eval) if isinstance(n, ast.Name) and n.id not in rf_env]
         simple = not _has_call(node) and not any(isinstance(n, (ast.Subscript, ast.IfExp, ast.Compare, ast.BoolOp, ast.List,
                                                                ast.Tuple, ast.Dict, ast.JoinedStr, ast.Lambda, ast.Attribute))
                                                  for n in ast.walk(node)) \
-            and not any(isinstance(n, ast.Constant) and type(n.value) not in (int, float) for n in ast.walk(node)) \
+            and not any(isinstance(n, ast.Constant) and type(n.value) not in (int, float) for n in ast.walk(node_eval)) \
             and all(isinstance(n.op, (ast.Add, ast.Sub, ast.Mult, ast.Div, ast.Pow)) for n in ast.walk(node)
                     if isinstance(n, ast.BinOp))
         if simple and all(_int_typed(n, self.root) for n in names):
             try:
-                rf = Evaluator().ev(node)
+                rf = Evaluator(dict(rf_env)).ev(node_eval)
                 try:
                     fr = rf.as_fraction()
                     if fr.denominator == 1:
                         return ast.Constant(value=int(fr))
                 except Inconclusive:
                     pass
+                _RF_CACHE["<RF %s>" % rf.key()] = rf
                 return ast.Constant(value="<RF %s>" % rf.key())
             except (Inconclusive, ZeroDivisionError):
                 return node
@@ -1412,6 +1481,104 @@ def _norm_simple(stmts, ctx):
                     stmts[i:i + 1] = [init, loop_]
                     changed = True
                     continue
+            # x = <call-free arithmetic over int-typed names> (x bound once, every use later in this block, operands not
+            # re-bound on the way): written out at its uses - ints have no identity worth keeping
+            if isinstance(st, ast.Assign) and len(st.targets) == 1 and isinstance(st.targets[0], ast.Name) \
+                    and ctx.get("root") is not None and not ctx.get("final") and _pure_value(st.value) \
+                    and all(_int_typed(n_, ctx["root"]) for n_ in _names(st.value, ast.Load)):
+                x_ = st.targets[0].id
+                root_ = ctx["root"]
+                stores_x = sum(1 for n_ in ast.walk(root_) if isinstance(n_, ast.Name) and n_.id == x_
+                               and isinstance(n_.ctx, (ast.Store, ast.Del)))
+                loads_x = sum(1 for n_ in ast.walk(root_) if isinstance(n_, ast.Name) and n_.id == x_ and isinstance(n_.ctx, ast.Load))
+                later_ = stmts[i + 1:]
+                here_ = sum(_count_loads(s_, x_) for s_ in later_)
+                ops_ = {n_.id for n_ in _names(st.value, ast.Load)}
+                last_use = max([k_ for k_, s_ in enumerate(later_) if _count_loads(s_, x_)] or [-1])
+                if stores_x == 1 and loads_x == here_ and here_ > 0 and not ctx.get("in_loop") \
+                        and not any(ops_ & _stored_names(s_) for s_ in later_[:last_use + 1]) \
+                        and x_ not in {n_.arg for n_ in ast.walk(root_) if isinstance(n_, ast.arg)}:
+                    for k_ in range(i + 1, len(stmts)):
+                        stmts[k_] = _Subst({x_: st.value}).visit(stmts[k_])
+                    del stmts[i]
+                    changed = True
+                    continue
+            # x = <int arithmetic over int-typed names and one len(..)>   ->   t = len(..) ; x = <arithmetic over t>
+            # (the names before the call are plain reads: taking the size first changes nothing)
+            if isinstance(st, ast.Assign) and len(st.targets) == 1 and isinstance(st.targets[0], ast.Name) \
+                    and isinstance(st.value, ast.BinOp) and ctx.get("root") is not None and not ctx.get("final"):
+                calls_ = [n_ for n_ in ast.walk(st.value) if isinstance(n_, ast.Call)]
+                shape_ok = all(isinstance(n_, (ast.BinOp, ast.Name, ast.Constant, ast.Call, ast.operator, ast.expr_context,
+                                                 ast.UnaryOp, ast.unaryop, ast.Attribute))
+                               for n_ in ast.walk(st.value))
+                if len(calls_) == 1 and shape_ok and isinstance(calls_[0].func, ast.Name) and calls_[0].func.id == "len" \
+                        and len(calls_[0].args) == 1 and not calls_[0].keywords \
+                        and all(isinstance(n_.op, (ast.Add, ast.Sub, ast.Mult)) for n_ in ast.walk(st.value) if isinstance(n_, ast.BinOp)):
+                    inside = {id(n_) for n_ in ast.walk(calls_[0])}
+                    outer_names = [n_ for n_ in ast.walk(st.value) if isinstance(n_, ast.Name) and id(n_) not in inside]
+                    outer_attrs = [n_ for n_ in ast.walk(st.value) if isinstance(n_, ast.Attribute) and id(n_) not in inside]
+                    if outer_names and not outer_attrs and all(_int_typed(n_, ctx["root"]) for n_ in outer_names) \
+                            and all(type(n_.value) is int for n_ in ast.walk(st.value)
+                                    if isinstance(n_, ast.Constant) and id(n_) not in inside):
+                        _HOIST[0] += 1
+                        tmp = "hoist__%d" % _HOIST[0]
+                        call_ = calls_[0]
+                        new_val = copy.deepcopy(st.value)
+                        for n_ in ast.walk(new_val):
+                            for fld_, val_ in ast.iter_fields(n_):
+                                if isinstance(val_, ast.Call) and ast.dump(val_) == ast.dump(call_):
+                                    setattr(n_, fld_, ast.Name(id=tmp, ctx=ast.Load()))
+                        stmts[i:i + 1] = [ast.Assign(targets=[ast.Name(id=tmp, ctx=ast.Store())], value=call_, lineno=st.lineno,
+                                                     col_offset=0),
+                                          ast.Assign(targets=st.targets, value=new_val, lineno=st.lineno, col_offset=0)]
+                        changed = True
+                        continue
+            # for x in IT: break  [else: E]      ->      try: x = next(IT)  except StopIteration: E
+            # (IT a local bound once to iter(..): the loop asks it for exactly one item)
+            if isinstance(st, ast.For) and isinstance(st.target, ast.Name) and isinstance(st.iter, ast.Name) \
+                    and len(st.body) == 1 and isinstance(st.body[0], ast.Break) and ctx.get("root") is not None:
+                itn = st.iter.id
+                binds_ = [n_ for n_ in ast.walk(ctx["root"]) if isinstance(n_, ast.Assign) and any(
+                    isinstance(t_, ast.Name) and t_.id == itn for t_ in n_.targets)]
+                stores_ = sum(1 for n_ in ast.walk(ctx["root"]) if isinstance(n_, ast.Name) and n_.id == itn
+                              and isinstance(n_.ctx, (ast.Store, ast.Del)))
+                if len(binds_) == 1 and stores_ == 1 and isinstance(binds_[0].value, ast.Call) \
+                        and isinstance(binds_[0].value.func, ast.Name) and binds_[0].value.func.id == "iter" \
+                        and len(binds_[0].value.args) == 1:
+                    asg = ast.Assign(targets=[ast.Name(id=st.target.id, ctx=ast.Store())], value=ast.Call(
+                        func=ast.Name(id="next", ctx=ast.Load()), args=[ast.Name(id=itn, ctx=ast.Load())], keywords=[]),
+                        lineno=st.lineno, col_offset=0)
+                    hd = ast.ExceptHandler(type=ast.Name(id="StopIteration", ctx=ast.Load()), name=None,
+                                           body=list(st.orelse) or [ast.Pass()])
+                    stmts[i] = ast.Try(body=[asg], handlers=[hd], orelse=[], finalbody=[], lineno=st.lineno, col_offset=0)
+                    ast.fix_missing_locations(stmts[i])
+                    changed = True
+                    continue
+            # acc = 0 ; for T in S: acc = acc + E      ->      acc = sum((E for T in S))
+            # (sum starts from the int 0 and adds with the binary operator, left to right; E does not read acc; T is not
+            #  used afterwards; no break / else)
+            if isinstance(st, ast.Assign) and len(st.targets) == 1 and isinstance(st.targets[0], ast.Name) \
+                    and isinstance(st.value, ast.Constant) and type(st.value.value) is int and st.value.value == 0 \
+                    and isinstance(nxt, ast.For) and not nxt.orelse and len(nxt.body) == 1 \
+                    and isinstance(nxt.body[0], ast.Assign) and len(nxt.body[0].targets) == 1 \
+                    and isinstance(nxt.body[0].targets[0], ast.Name) and nxt.body[0].targets[0].id == st.targets[0].id \
+                    and isinstance(nxt.body[0].value, ast.BinOp) and isinstance(nxt.body[0].value.op, ast.Add) \
+                    and isinstance(nxt.body[0].value.left, ast.Name) and nxt.body[0].value.left.id == st.targets[0].id:
+                acc_ = st.targets[0].id
+                e_ = nxt.body[0].value.right
+                tnames = {n_.id for n_ in ast.walk(nxt.target) if isinstance(n_, ast.Name)}
+                after_ = stmts[i + 2:]
+                if _count_loads(e_, acc_) == 0 and acc_ not in tnames and _count_loads(nxt.iter, acc_) == 0 \
+                        and all(isinstance(n_, (ast.Name, ast.Tuple)) for n_ in ast.walk(nxt.target) if isinstance(n_, ast.expr)) \
+                        and not any(n_.id in tnames for s_ in after_ for n_ in ast.walk(s_) if isinstance(n_, ast.Name)) \
+                        and not any(isinstance(n_, (ast.Yield, ast.YieldFrom, ast.Await)) for n_ in ast.walk(e_)) \
+                        and ctx.get("root") is not None and not ctx.get("in_loop"):
+                    tgt_ = copy.deepcopy(nxt.target)
+                    ge = ast.GeneratorExp(elt=e_, generators=[ast.comprehension(target=tgt_, iter=nxt.iter, ifs=[], is_async=0)])
+                    stmts[i:i + 2] = [ast.Assign(targets=[ast.Name(id=acc_, ctx=ast.Store())], value=ast.Call(
+                        func=ast.Name(id="sum", ctx=ast.Load()), args=[ge], keywords=[]), lineno=st.lineno, col_offset=0)]
+                    changed = True
+                    continue
             rew = _tuple_assign_rewrite(st)
             if rew is not None:
                 stmts[i:i + 1] = rew
@@ -1760,7 +1927,15 @@ def _norm_simple(stmts, ctx):
                     continue
                 # x = <total, effect-free value> ; S      (S neither reads nor writes x nor writes what the value reads):
                 # the binding goes after S - as late as possible, next to its first use
-                if uses_next == 0 and not stores_next and _movable_value(st.value) \
+                list_flag = None
+                if uses_next == 0 and not stores_next and ctx.get("root") is not None and not _movable_value(st.value):
+                    list_flag = _private_list_flag(st.value, ctx["root"])
+                    if list_flag is not None and any(
+                            isinstance(n_, ast.Attribute) and isinstance(n_.value, ast.Name) and n_.value.id in list_flag
+                            and n_.attr in ("append", "remove", "clear", "pop", "insert", "extend", "sort", "reverse")
+                            for n_ in ast.walk(nxt)):
+                        list_flag = None
+                if uses_next == 0 and not stores_next and (_movable_value(st.value) or list_flag is not None) \
                         and not isinstance(st.value, (ast.Name, ast.Constant)) \
                         and not isinstance(nxt, FuncTypes + (ast.ClassDef, ast.Return, ast.Raise, ast.Break, ast.Continue)) \
                         and not _always_leaves([nxt]) \
@@ -2100,8 +2275,8 @@ def _breaks_to_returns(stmts):
 
 
 def _private_lists(fn):
-    """locals that are only ever bound to a fresh ``[]`` and only used through append / remove / iteration / truth /
-    len / whole-slice reset: nobody else can hold a reference to such a list"""
+    """locals that are only ever bound to a fresh list (display or comprehension) and only used through append / remove /
+    iteration / truth / len / whole-slice reset: nobody else can hold a reference to such a list"""
     parents = {}
     for p_ in ast.walk(fn):
         for c_ in ast.iter_child_nodes(p_):
@@ -2119,7 +2294,7 @@ def _private_lists(fn):
         ok = False
         if isinstance(n.ctx, ast.Store):
             ok = isinstance(p_, ast.Assign) and len(p_.targets) == 1 and p_.targets[0] is n \
-                and isinstance(p_.value, ast.List) and not p_.value.elts
+                and isinstance(p_.value, (ast.List, ast.ListComp))
             if ok:
                 verdict.setdefault(n.id, True)
         elif isinstance(n.ctx, ast.Load):
@@ -2134,7 +2309,13 @@ def _private_lists(fn):
             elif isinstance(p_, ast.UnaryOp) and isinstance(p_.op, ast.Not):
                 ok = True
             elif isinstance(p_, ast.BoolOp):
-                ok = isinstance(parents.get(p_), (ast.If, ast.While)) and parents[p_].test is p_
+                # an operand of and / or is only tested when the whole expression is (``x = a or b`` hands the list on)
+                top = p_
+                while isinstance(parents.get(top), ast.BoolOp):
+                    top = parents[top]
+                up = parents.get(top)
+                ok = (isinstance(up, (ast.If, ast.While, ast.IfExp, ast.Assert)) and up.test is top) or (
+                    isinstance(up, ast.UnaryOp) and isinstance(up.op, ast.Not))
             elif isinstance(p_, ast.Call) and isinstance(p_.func, ast.Name) and p_.func.id == "len" and p_.args == [n]:
                 ok = True
             elif isinstance(p_, ast.Subscript) and p_.value is n and isinstance(p_.slice, ast.Slice) \
@@ -2144,6 +2325,35 @@ def _private_lists(fn):
         if not ok:
             verdict[n.id] = False
     return {k for k, v in verdict.items() if v}, parents
+
+
+def _private_list_flag(e, root):
+    """``e`` is a truth function (not / and / or, ``len(L) <cmp> literal``, bare L in a boolean position) of private
+    lists only: it cannot raise, has no effect, and its value changes only when one of the lists is mutated through
+    its own methods.  Returns the set of list names, or None."""
+    names = set()
+
+    def ok(x, boolean):
+        if isinstance(x, ast.UnaryOp) and isinstance(x.op, ast.Not):
+            return ok(x.operand, True)
+        if isinstance(x, ast.BoolOp):
+            return all(ok(v, True) for v in x.values) and boolean
+        if isinstance(x, ast.Name) and boolean:
+            names.add(x.id)
+            return True
+        if isinstance(x, ast.Compare) and len(x.ops) == 1 and isinstance(x.ops[0], (ast.Eq, ast.NotEq, ast.Lt, ast.LtE, ast.Gt, ast.GtE)):
+            for a, b in ((x.left, x.comparators[0]), (x.comparators[0], x.left)):
+                if isinstance(a, ast.Call) and isinstance(a.func, ast.Name) and a.func.id == "len" and len(a.args) == 1 \
+                        and isinstance(a.args[0], ast.Name) and isinstance(b, ast.Constant) and type(b.value) is int:
+                    names.add(a.args[0].id)
+                    return True
+        return False
+    # the value is the truth value itself only under ``not`` / a comparison: ``a or b`` yields an operand
+    top_boolean = isinstance(e, (ast.Compare,)) or (isinstance(e, ast.UnaryOp) and isinstance(e.op, ast.Not))
+    if not top_boolean or not ok(e, True) or not names:
+        return None
+    private, _ = _private_lists(root)
+    return names if names <= private else None
 
 
 def _private_list_resets(fn):
@@ -3186,6 +3396,91 @@ def _clean(node):
     return ast.parse(ast.unparse(node)).body[0]
 
 
+def _list_locals(f):
+    """locals that can only hold a list (every binding a display / comprehension / list(..) / sorted(..), otherwise only
+    ``+=``): their truth value is "not empty" """
+    out = set()
+    kinds_ = {}
+    for n_ in ast.walk(f):
+        if isinstance(n_, ast.Assign):
+            for t_ in n_.targets:
+                if isinstance(t_, ast.Name):
+                    v_ = n_.value
+                    is_list = isinstance(v_, (ast.List, ast.ListComp)) or (
+                        isinstance(v_, ast.Call) and isinstance(v_.func, ast.Name) and v_.func.id in ("list", "sorted")) or (
+                        isinstance(v_, ast.BinOp) and isinstance(v_.op, ast.Mult) and isinstance(v_.left, ast.List))
+                    kinds_.setdefault(t_.id, []).append(is_list)
+                else:
+                    for x_ in ast.walk(t_):
+                        if isinstance(x_, ast.Name) and isinstance(x_.ctx, ast.Store):
+                            kinds_.setdefault(x_.id, []).append(False)
+        elif isinstance(n_, ast.AugAssign) and isinstance(n_.target, ast.Name):
+            kinds_.setdefault(n_.target.id, []).append(isinstance(n_.op, ast.Add))
+        elif isinstance(n_, (ast.For, ast.comprehension, ast.withitem, ast.NamedExpr, ast.ExceptHandler)):
+            tg_ = getattr(n_, "target", None) or getattr(n_, "optional_vars", None)
+            if isinstance(n_, ast.ExceptHandler) and n_.name:
+                kinds_.setdefault(n_.name, []).append(False)
+            if tg_ is not None:
+                for x_ in ast.walk(tg_):
+                    if isinstance(x_, ast.Name):
+                        kinds_.setdefault(x_.id, []).append(False)
+        elif isinstance(n_, (ast.Global, ast.Nonlocal)):
+            for nm_ in n_.names:
+                kinds_.setdefault(nm_, []).append(False)
+        elif isinstance(n_, FuncTypes + (ast.ClassDef,)) and n_ is not f:
+            kinds_.setdefault(n_.name, []).append(False)
+    all_params_ = {a_.arg for g_ in ast.walk(f) if isinstance(g_, FuncTypes + (ast.Lambda,)) for a_ in ast.walk(g_.args)
+                   if isinstance(a_, ast.arg)}
+    for nm_, ks_ in kinds_.items():
+        if ks_ and all(ks_) and nm_ not in all_params_:
+            out.add(nm_)
+    return out
+
+
+class _TruthOnly(ast.NodeTransformer):
+    """test-position bare names of list / tuple locals written as ``len(x) != 0`` (so that arms are ordered the same way
+    whichever spelling was used, before names are numbered)"""
+    def __init__(self, names):
+        self.names = names
+
+    def _t(self, e):
+        if isinstance(e, ast.Name) and e.id in self.names:
+            return ast.Compare(left=ast.Call(func=ast.Name(id="len", ctx=ast.Load()), args=[e], keywords=[]),
+                               ops=[ast.NotEq()], comparators=[ast.Constant(value=0)])
+        if isinstance(e, ast.BoolOp):
+            e.values = [self._t(v) for v in e.values]
+        elif isinstance(e, ast.UnaryOp) and isinstance(e.op, ast.Not):
+            e.operand = self._t(e.operand)
+        return e
+
+    def visit_If(self, node):
+        node.test = self._t(node.test)
+        self.generic_visit(node)
+        return node
+
+    def visit_While(self, node):
+        node.test = self._t(node.test)
+        self.generic_visit(node)
+        return node
+
+    def visit_IfExp(self, node):
+        node.test = self._t(node.test)
+        self.generic_visit(node)
+        return node
+
+    def visit_BoolOp(self, node):
+        # only where the whole expression is a test: ``x = a or b`` hands an operand on
+        self.generic_visit(node)
+        return node
+
+    def visit_UnaryOp(self, node):
+        # ``not E`` is a truth value wherever it stands
+        if isinstance(node.op, ast.Not):
+            node.operand = self._t(node.operand)
+        self.generic_visit(node)
+        return node
+
+
 def canonical_ast(fn, helpers, methods=None, hier=None, segment=False):
     _CTX["list_classes"] = {c for c, bases in (hier or {}).items() if "list" in bases}
     f = _clean(fn)
@@ -3250,6 +3545,10 @@ def canonical_ast(fn, helpers, methods=None, hier=None, segment=False):
     f.body = docstring_free(f.body)
     _private_list_resets(f)
     _tuple_assign_prepass(f)
+    ll_ = _list_locals(f)
+    if ll_:
+        f = _TruthOnly(ll_).visit(f)
+        ast.fix_missing_locations(f)
     if not segment:
         for _ in range(3):
             if not _inline_read_aliases(f, strict=True):
@@ -3301,6 +3600,7 @@ def canonical_ast(fn, helpers, methods=None, hier=None, segment=False):
     for nm_, lst_ in binds.items():
         if lst_.count("tuple") * 2 == len(lst_) and lst_.count("tuple") >= 1 and nm_ not in _scope_params(f):
             tuple_locals.add(nm_)
+    tuple_locals |= _list_locals(f)
     f = _Expr(tuple_locals, f).visit(f)
     ast.fix_missing_locations(f)
     f.body = _norm_region(f.body, None if segment else "func", {"root": f, "defined": params, "final": True,
